@@ -158,6 +158,15 @@ def Pdf.clear (s : Pdf α) : Pdf α := { s with data := #[], idx := fun _ => non
 
 def Pdf.size (s : Pdf α) : Nat := s.data.size
 
+/-- `empty()` -/
+def Pdf.isEmpty (s : Pdf α) : Bool := s.data.size == 0
+
+/-- `operator[](i)`: the payload at position `i` (checked) -/
+def Pdf.elemAt (s : Pdf α) (i : Nat) : Option Nat := s.data[i]?
+
+/-- `PDF(d, weights)`: `add` in a loop on a fresh structure -/
+def Pdf.ofWeights [WOps α] (ws : List α) : Pdf α := ws.foldl Pdf.add {}
+
 /-- `getWeight(elem)`: `tree_.front()[elem->index_]` (checked). -/
 def Pdf.getWeight (s : Pdf α) (h : Nat) : Option α :=
   match s.idx h with
